@@ -43,7 +43,7 @@ CHECKS = {
     "C15": {
         "text": "Decides the window the property's anchor names, for all paths of rollover: the sealed segment's indexes are installed in the reader pool, the live indexes are "
                 "swapped and the new live segment id is published while the live-index write guard is held (and in that order); readers run their lookup closure under one read "
-                "guard. Does not explore schedules.",
+                "guard; version queries walk the sealed segments newest first. Does not explore schedules.",
         "note": NOTE,
         "technique": "static analysis: guard-liveness region (lock acquisition to drop) on MIR, ordering of stores/calls inside the region",
     },
@@ -63,7 +63,8 @@ CHECKS = {
     },
     "C18": {
         "text": "Decides for all paths: the bytes the read-ahead buffer may serve are bounded by the flushed offset loaded by the read that filled it; replace_header_with invalidates "
-                "a range starting no later than the bytes it rewrites and syncs before Ok; only Writer::sync/set_len move the flushed offset. Does not explore interleavings.",
+                "a range starting no later than the bytes it rewrites and syncs before Ok; only Writer::sync/set_len move the flushed offset; the refill counter carries nothing over; read_bytes is bounded by the flushed offset with a "
+                "comparison that is monotone in it. Does not explore interleavings.",
         "note": NOTE,
         "technique": "static analysis: value-dependence of the cache validity length, linear range comparison, who-may-call on MIR",
     },
@@ -75,7 +76,7 @@ CHECKS = {
     },
     "C20": {
         "text": "Decides lost-wakeup freedom only: sync always publishes before Ok, successful writes end in sync_if_necessary, the poller visits every writer set and is spawned, every "
-                "request is answered on every path, and rollover syncs the old segment before replacing the channel. No time bound is decided.",
+                "request is answered on every path, rollover syncs the old segment before replacing the channel (and does replace it), and only should_sync decides to skip a sync. No time bound is decided.",
         "note": NOTE + " Assumes a finite sync interval or reachable size thresholds (configuration).",
         "technique": "static analysis: must-pass / dominance rules over MIR",
     },
@@ -135,7 +136,8 @@ CHECKS = {
     "C22": {
         "text": "Decides only that a well-formed or malformed request cannot kill the connection task from inside the handlers, encoders, Command::{try_from,handle} and "
                 "Conn::{run,handle_request}: every overflow / division / unwrap / index / explicit panic there is discharged by an interval, a guard or a frozen, reasoned "
-                "allow-list entry; handler and parse errors are mapped to SimpleError replies and no io::Error is constructed in the request path. The comparison with the "
+                "allow-list entry; handler and parse errors are mapped to SimpleError replies and no io::Error is constructed in the request path; request values are not narrowed by wrapping casts; buffered pipelined requests are drained "
+                "before the task waits again. The comparison with the "
                 "reference event-store model (versions, has_more flags) is not decided.",
         "note": NOTE + " The allow-list (14 entries) is part of the trusted base; each entry names one (function, site, occurrence) with its reason and is printed in the evidence.",
         "technique": "static analysis: panic audit with intervals and a frozen allow-list, error-mapping shape rules on MIR",
@@ -159,7 +161,8 @@ CHECKS = {
     "C06": {
         "text": "Decides that the loader of sealed segments has (or lacks) a path that can rebuild an index from the segment file for each of the three index kinds "
                 "(today it lacks it: KNOWN-FINDING D6 x3), and that Open*Index::close only replaces the in-memory map with the result of a successful flush_inner "
-                "and writes the file through flush_inner only. Does not decide which file prefixes are detected as incomplete.",
+                "and writes the file through flush_inner only; index load errors are never discarded; the six index constructors open read+write; every stream key is also in the bloom "
+                "filter; the file names the writer uses are the names the reopen scan recognises. Does not decide which file prefixes are detected as incomplete.",
         "note": NOTE,
         "technique": "static analysis: call-graph reachability (may-call) from the loader, dominance / value-flow in the background flush closure",
     },
